@@ -173,6 +173,54 @@ def h_add(ex, a_lens, b_lens, tr_lens):
     return {"cols": len(ca)}
 
 
+def h_ngrams_lemma(ex, behaviour):
+    """ngrams_of for EVERY sequence length and n-gram size (sizes symbolic, loops replaced by one arbitrary iteration):
+    what is appended at position i (and gram length j) is the full in-range slice [i, i + size), it is appended exactly
+    when it fits -- so every occurrence of every gram is produced once and nothing is truncated at the end"""
+    import ast
+    import os
+    from harness.C07_plan import _OneIteration
+    path = os.path.join(loader.REPO, "vectorizers", "ngram_vectorizer.py")
+    tree = ast.parse(open(path).read())
+    fdef = [n for n in tree.body if isinstance(n, ast.FunctionDef) and n.name == "ngrams_of"][0]
+    fdef.decorator_list = []
+    fdef = ast.fix_missing_locations(_OneIteration({}).visit(fdef))
+    L = fresh_int("len", 0, 10 ** 6)
+    n = fresh_int("ngram_size", 1, 10 ** 6)
+    register("len", L); register("ngram_size", n)
+    hav = {}
+    cuts = []
+
+    class _Seq:
+        def __getitem__(self, k):
+            cuts.append((k.start, k.stop))
+            return ("gram", k.start, k.stop)
+    seq = _Seq()
+
+    def _havoc(name, *a):
+        lo, hi = (0, a[0]) if len(a) == 1 else (a[0], a[1])
+        v = fresh_int("iter_" + name)
+        assume(sand(v >= lo, v < hi))
+        hav[name] = v
+        return v
+    ns = {"_havoc": _havoc, "_typed": lambda a, b: b, "len": lambda x: L}
+    exec(compile(ast.Module(body=[fdef], type_ignores=[]), path, "exec"), ns)
+    assume(L >= 1)
+    out = call(ns["ngrams_of"], seq, n, behaviour)
+    i = hav["i"]
+    size = n if behaviour == "exact" else hav["j"]
+    fits = i + size <= L
+    check("a gram is appended exactly when it fits", (len(cuts) == 1) == bool(fits) if not is_sym(fits) else True)
+    if bool(fits):
+        check("the gram that fits is appended", len(cuts) == 1 and len(out) == 1)
+        if cuts:
+            a, b = cuts[0]
+            check("it is the full slice [i, i + size), inside the sequence", sand(a == i, b == i + size, a >= 0, b <= L))
+    else:
+        check("nothing is appended for a position where the gram does not fit", len(cuts) == 0 and len(out) == 0)
+    return None
+
+
 import symx.core as core  # noqa: E402
 
 
@@ -196,6 +244,12 @@ def ngram_cases(tier, props, grid=None):
                                "mask_string": "fresh token" if m else None, "pruning": p, "tokens": "unconstrained integers"},
                        functions=FUNCS))
     return cs
+
+
+def lemma_cases(tier):
+    return [Case("ngrams_of_lemma[all sizes,%s]" % b, h_ngrams_lemma, dict(behaviour=b), replay="ngram:replay_ngrams_lemma",
+                 functions=["ngram_vectorizer.ngrams_of"], bounds={"len, ngram_size": "symbolic up to 10^6", "iteration": "arbitrary"})
+            for b in ("exact", "subgrams")]
 
 
 def add_cases(tier):
